@@ -146,14 +146,33 @@ def run_one(ch, cfg):
     w = World(ch, v1=v1)
     viol = []
     w.bring_up()
+    # history: one manager lifetime serves 1..3 signing requests; each is judged on its own
+    nreq = [1, 1, 2, 3][ch.draw(4, "requests-in-lifetime")]
+    out = None
+    for _ in range(nreq):
+        res = _one_request(w, ch, cfg, v1, viol)
+        if out is None:
+            out = res
+    out["violations"] = viol
+    out["digest"] = w.log.digest()
+    out["sim_s"] = w.clock.elapsed
+    out["faults"] = dict(w.link.stats.faults)
+    out["probes"] = dict(w.device.probes)
+    out["probes"]["requests_%d" % nreq] = 1
+    return out
+
+
+def _one_request(w, ch, cfg, v1, viol):
     req, exp, info = gen_request(ch, cfg, v1)
     der, shape, r_hex, s_hex = gen_der(ch)
     exp["der"] = der
     dev = w.device
     dev.expect = exp
+    dev.sign = None
     n_before = len(dev.apdus)
     rep, exc = w.request(req)
     viol.extend(dev.violations)
+    del dev.violations[:]
     st = dev.sign
     parts = {}
     complete = False
@@ -229,6 +248,9 @@ def _m(owner_path, name, old, new):
 
 
 MUTANTS = {
+    "path-encoding-remembered-across-requests": _m(
+        "ledger.hsm2dongle.HSM2Dongle", "sign_authorized", "key_id_bytes = key_id.to_binary()",
+        "key_id_bytes = self.__dict__.setdefault('_kib', key_id.to_binary())"),
     "input-index-big-endian": _m(
         "ledger.hsm2dongle.HSM2Dongle", "sign_authorized",
         'input_index.to_bytes(4, byteorder="little"', 'input_index.to_bytes(4, byteorder="big"'),
